@@ -1334,7 +1334,7 @@ func c12AddedKey(p c12Path, c *c12Case, col int) string {
 
 // ---------------------------------------------------------------- the check
 
-const c12Rule = "random source schemas (required/optional/repeated leaves of 8 physical kinds, groups, LIST groups, depth <= 4, <= 10 leaves, field order kept by an ordered group node) x random targets (delete + permute at any depth, then one of: nothing / add optional, required, repeated leaves and groups incl. inside repeated groups and lists / required->optional / optional->required / an incompatible change) x random rows shredded by the harness reference shredder x 7 library paths (Convert+conversion.Convert, ConvertRowGroup rows and column chunks, NewReader(schema), CopyRows into a writer, WriteRowGroup of the converted row group, MergeRowGroups with a schema) + Read[T] pairs + sorted sources (2-3 declared sorting columns, asc/desc, buffers and files) x targets dropping every subset of the sorting columns (declared order of the converted row group and of the merge must be a true order of the rows); expected = reference shred of the projected value against the target schema; L2: conversion.Convert vs the Lean mirror convertRow and the harness projection vs the Lean spec; every library call runs in a worker subprocess (address-space limit, recover, timeout): a panic, fatal error or hang is an L1 failure of that case; non-trivial = the target differs from the source and a shared optional/repeated column holds both nulls and values"
+const c12Rule = "random source schemas (required/optional/repeated leaves of 8 physical kinds, groups, LIST groups, depth <= 4, <= 10 leaves, field order kept by an ordered group node) x random targets (pure permutation at every depth / delete + permute at any depth, then one of: nothing / add optional, required, repeated leaves and groups incl. inside repeated groups and lists / required->optional / optional->required / an incompatible change) x random rows shredded by the harness reference shredder x 11 library paths (Convert+conversion.Convert, ConvertRowGroup rows and column chunks - every chunk also re-read through Page.Slice at random row bounds and after Pages().SeekToRow(k) -, NewReader(schema), NewRowGroupReader(schema), NewGenericReader[any](schema), NewGenericRowGroupReader[any](schema) over a file row group and over a Buffer, CopyRows into a writer, WriteRowGroup of the converted row group, MergeRowGroups with a schema) + 5 struct pairs through Read[B], NewGenericReader[B], NewGenericRowGroupReader[B], Reader.Read(&B) and Reader.Read with the target type drawn per call + sorted sources (2-3 declared sorting columns, asc/desc, buffers and files) x targets dropping every subset of the sorting columns (declared order of the converted row group and of the merge must be a true order of the rows) + MergeRowGroups(schema, sorting) over two sorted files with small pages whose key ranges overlap in part (lone stretches > 1024 rows) read as rows, through CopyRows and WriteRowGroup; expected = reference shred of the projected value against the target schema; L2: conversion.Convert vs the Lean mirror convertRow, the harness projection vs the Lean spec, EqualNodes/SameNodes vs equalN/sameN, Reader.Read histories vs Rd.run; every library call runs in a worker subprocess (address-space limit, recover, timeout): a panic, fatal error or hang is an L1 failure of that case; non-trivial = the target differs from the source and a shared optional/repeated column holds both nulls and values"
 
 // RunC12 is the parent: it never calls the library itself. The cases run in worker
 // subprocesses (`pqcheck -worker c12 ...`); when a worker dies (fatal error: out of memory,
